@@ -62,3 +62,32 @@ void h_bashf(void)
 	VP_WITNESS();
 	VP_ASSERT(same, "bashF: BASH_64 unit == BASH_32 unit for every state");
 }
+
+/* zz_add.c: default (regular) build vs -DSAFE_FAST build of the same file (the #ifdef SAFE_FAST loop bodies) */
+unsigned long long zzSubW__F(void* b, const void* a, size_t n, unsigned long long w); unsigned long long zzSubW(void* b, const void* a, size_t n, unsigned long long w);
+unsigned long long zzAddW__F(void* b, const void* a, size_t n, unsigned long long w); unsigned long long zzAddW(void* b, const void* a, size_t n, unsigned long long w);
+unsigned long long zzSubW2__F(void* a, size_t n, unsigned long long w); unsigned long long zzSubW2(void* a, size_t n, unsigned long long w);
+unsigned long long zzAddW2__F(void* a, size_t n, unsigned long long w); unsigned long long zzAddW2(void* a, size_t n, unsigned long long w);
+unsigned long long zzAdd__F(void* c, const void* a, const void* b, size_t n); unsigned long long zzSub__F(void* c, const void* a, const void* b, size_t n);
+unsigned long long zzAdd2__F(void* b, const void* a, size_t n); unsigned long long zzAdd2(void* b, const void* a, size_t n);
+unsigned long long zzSub2__F(void* b, const void* a, size_t n); unsigned long long zzSub2(void* b, const void* a, size_t n);
+void h_safefast(void)
+{
+	VP_INPUT();
+	unsigned long long a[2], b[2], c[2], d[2], w; size_t n = in.count;
+	VP_ASSUME(n <= 2);
+	memcpy(a, in.a, 16); memcpy(b, in.b, 16); memcpy(&w, in.w, 8);
+	VP_WITNESS();
+	VP_ASSERT(zzAdd(c, a, b, n) == zzAdd__F(d, a, b, n) && vp_eq(c, d, 8 * n), "zzAdd: regular build == SAFE_FAST build");
+	VP_ASSERT(zzSub(c, a, b, n) == zzSub__F(d, a, b, n) && vp_eq(c, d, 8 * n), "zzSub: regular build == SAFE_FAST build");
+	VP_ASSERT(zzAddW(c, a, n, w) == zzAddW__F(d, a, n, w) && vp_eq(c, d, 8 * n), "zzAddW: regular build == SAFE_FAST build");
+	VP_ASSERT(zzSubW(c, a, n, w) == zzSubW__F(d, a, n, w) && vp_eq(c, d, 8 * n), "zzSubW: regular build == SAFE_FAST build");
+	memcpy(c, a, 16); memcpy(d, a, 16);
+	VP_ASSERT(zzAddW2(c, n, w) == zzAddW2__F(d, n, w) && vp_eq(c, d, 8 * n), "zzAddW2: regular build == SAFE_FAST build");
+	memcpy(c, a, 16); memcpy(d, a, 16);
+	VP_ASSERT(zzSubW2(c, n, w) == zzSubW2__F(d, n, w) && vp_eq(c, d, 8 * n), "zzSubW2: regular build == SAFE_FAST build");
+	memcpy(c, b, 16); memcpy(d, b, 16);
+	VP_ASSERT(zzAdd2(c, a, n) == zzAdd2__F(d, a, n) && vp_eq(c, d, 8 * n), "zzAdd2: regular build == SAFE_FAST build");
+	memcpy(c, b, 16); memcpy(d, b, 16);
+	VP_ASSERT(zzSub2(c, a, n) == zzSub2__F(d, a, n) && vp_eq(c, d, 8 * n), "zzSub2: regular build == SAFE_FAST build");
+}
